@@ -296,6 +296,74 @@ fn run_config(ctx: &Ctx, d: usize, overrides: &[Option<usize>], cn: &Cn, samples
     }
 }
 
+/// The same operation registered for two version ranges with different (or no) overrides: the limit
+/// in force is the one of the endpoint that serves the request's version.
+fn run_versioned(ctx: &Ctx, cn: &Cn, samples: &Samples) {
+    use vh::slices::{versioned, VERSION_HEADER};
+    for d in [16usize, 5] {
+        let srv = LiveServer::start(zoo9::versioned_api(), zoo9::ZooCtx::default(), ServerOpts { default_body_max: d, version_policy: Some(versioned("9.0.0")), ..Default::default() }).unwrap_or_else(|e| machinery_failure(&e));
+        let mut ka = KeepAlive::new(srv.addr);
+        // (path, version, override of the serving endpoint, operation id)
+        let cases: [(&str, &str, Option<usize>, &str); 6] = [
+            ("/vlim_a", "1.0.0", Some(40), "vlim_a_old"), ("/vlim_a", "2.5.0", None, "vlim_a_new"),
+            ("/vlim_b", "1.0.0", None, "vlim_b_old"), ("/vlim_b", "2.5.0", Some(3), "vlim_b_new"),
+            ("/vlim_c", "1.0.0", Some(3), "vlim_c_old"), ("/vlim_c", "2.5.0", Some(40), "vlim_c_new"),
+        ];
+        for (path, ver, o, op) in cases {
+            let l = o.unwrap_or(d);
+            for n in 0..=(l + 6).max(46) {
+                let body: Vec<u8> = (0..n).map(|i| (i.wrapping_mul(37) % 251) as u8).collect();
+                for chunked in [false, true] {
+                    cn.requests.fetch_add(1, Ordering::Relaxed);
+                    let hdr = format!("{VERSION_HEADER}: {ver}\r\ncontent-type: application/octet-stream\r\n");
+                    let req = if chunked {
+                        let parts: Vec<&[u8]> = if n >= 3 { vec![&body[..1], &body[1..n - 1], &body[n - 1..]] } else { vec![&body[..]] };
+                        chunked_request("PUT", path, &hdr, &parts)
+                    } else {
+                        request("PUT", path, &hdr, &body)
+                    };
+                    let r = ka.roundtrip(&req, false, T);
+                    let seen = srv.server().app_private().max_seen.lock().unwrap().get(op).copied().unwrap_or(0) as usize;
+                    let case = json!({"kind":"live_request","server_default": d, "override": o, "extractor": "versioned", "path": path, "version": ver, "body_len": n, "framing": if chunked {"chunked"} else {"content-length"}});
+                    let mut why: Vec<&str> = vec![];
+                    match &r {
+                        ReadOutcome::Resp(resp) => {
+                            if n <= l {
+                                cn.within_limit.fetch_add(1, Ordering::Relaxed);
+                                let j = resp.json().unwrap_or(Value::Null);
+                                if resp.status != 200 {
+                                    why.push("body within the limit refused");
+                                } else if j["len"] != json!(n) || j["fnv"] != json!(zoo9::fnv(&body)) || j["limit"] != json!(l) {
+                                    why.push("body within the limit not delivered intact (or wrong effective limit)");
+                                }
+                            } else {
+                                cn.over_limit.fetch_add(1, Ordering::Relaxed);
+                                if !(400..500).contains(&resp.status) {
+                                    why.push("body over the limit accepted");
+                                }
+                            }
+                        }
+                        _ => why.push("no response"),
+                    }
+                    if seen > l {
+                        why.push("handler observed more body bytes than the limit");
+                        srv.server().app_private().max_seen.lock().unwrap().insert(op.to_string(), 0);
+                    }
+                    if !why.is_empty() {
+                        ctx.report(Violation {
+                            sig: json!({"kind":"body_limit","extractor":"versioned_route","why": why, "has_override": o.is_some(), "other_version_has_override": true}),
+                            case,
+                            expected: json!({"effective_limit": l, "outcome": if n <= l {"200, intact"} else {"4xx"}}),
+                            observed: match &r { ReadOutcome::Resp(resp) => json!({"response": resp.to_json(), "max_bytes_seen_by_handler": seen}), o => json!(format!("{o:?}")) },
+                        });
+                    }
+                    samples.offer(|| json!({"versioned": path, "version": ver, "n": n, "limit": l}));
+                }
+            }
+        }
+    }
+}
+
 fn main() {
     let args = parse_args();
     quiet_panics();
@@ -308,7 +376,11 @@ fn main() {
         Ctx::replay_and_exit(&args, level, "E2-live", |ctx, case| {
             let d = case["server_default"].as_u64().unwrap() as usize;
             let o = case["override"].as_u64().map(|x| x as usize);
-            run_config(ctx, d, &[o], &cn, &Samples::new(0));
+            if case["extractor"] == json!("versioned") {
+                run_versioned(ctx, &cn, &Samples::new(0));
+            } else {
+                run_config(ctx, d, &[o], &cn, &Samples::new(0));
+            }
         });
     }
     let ctx = Ctx::new(&args, level, "E2-live");
@@ -316,6 +388,7 @@ fn main() {
     let defaults: Vec<usize> = ctx.tier.pick(vec![1, 16], vec![0, 1, 5, 16]);
     let overrides: Vec<Option<usize>> = ctx.tier.pick(vec![None, Some(0), Some(3), Some(40), Some(200)], vec![None, Some(0), Some(3), Some(16), Some(40), Some(200)]);
     par_for(defaults.len(), defaults.len(), 0, |i| run_config(&ctx, defaults[i], &overrides, &cn, &samples));
+    run_versioned(&ctx, &cn, &samples);
     let cov = json!({
         "evaluations": cn.requests.load(Ordering::Relaxed),
         "distinct_nontrivial": cn.over_limit.load(Ordering::Relaxed),
